@@ -70,13 +70,15 @@ fn ntt_primes_down(n: usize, from: u64, count: usize, exclude: u64) -> Vec<u64> 
 
 fn build_confs(cfg: &Cfg) -> Vec<Conf> {
     let max_log = cfg.pick(10, 13);
-    let randoms = cfg.pick(2u8, 4u8);
+    // seed-dependent random primes per (N, bit size): quick 4; thorough 6 up to N = 1024 and 1 above (cost)
+    let randoms_small = cfg.pick(4u8, 6u8);
     let mut v = vec![];
     for logn in 1..=max_log {
         let n = 1usize << logn; let mut first = true;
         for bits in 4..=60usize {
             let Some((m, kmin, kmax)) = cand_range(n, bits) else { continue };
             if prime_up(m, kmin, kmax).is_none() { continue; }
+            let randoms = if n <= 1024 { randoms_small } else { 1 };
             for kind in 0..(2 + randoms) { v.push(Conf { n, bits, kind, first_of_n: first }); first = false; }
         }
     }
@@ -555,7 +557,7 @@ fn iso_case(cfg: &Cfg, grp: &str, case: u64, rep: &mut Report, rng: &mut Rng, co
                     }
                 }
             }
-            if n <= 8 && *cls == "coeff>=t" && v.len() > 1 && op == "encode_polynomial_new" { sample_poly = Some(json!({"values": v, "encode_polynomial_output": d, "decode_polynomial_output": o_new})); }
+            if n <= 8 && *cls == "coeff>=t" && v.len() > 1 && op == "encode_polynomial_new" && sample_poly.is_none() { sample_poly = Some(json!({"values": v, "encode_polynomial_output": d, "decode_polynomial_output": o_new})); }
         }
     }
     { let _ = lib(|| b.enc.encode_polynomial_new(&vec![1u64; n + 1])); rep.out_of_precondition += 1; } // longer than N: a refusal is expected, not judged
@@ -570,11 +572,11 @@ fn iso_case(cfg: &Cfg, grp: &str, case: u64, rep: &mut Report, rng: &mut Rng, co
 fn step_of(k: usize, h: usize) -> isize { if k < h - 1 { (k + 1) as isize } else { -((k - (h - 1) + 1) as isize) } }
 
 /// apply the Galois element through the three forms and compare the decoded matrix
-fn check_galois(x: &X, rep: &mut Report, b: &Bundle, rng: &mut Rng, p: &Plaintext, v: &[u64], elt: usize, want: &[u64], class: &str, what: &str, forms: &[&'static str], outs: &mut Vec<Value>) {
+fn check_galois(x: &X, rep: &mut Report, b: &Bundle, dirty: &Plaintext, p: &Plaintext, v: &[u64], elt: usize, want: &[u64], class: &str, what: &str, forms: &[&'static str], outs: &mut Vec<Value>) {
     for &form in forms {
         let inp = format!("{} galois_elt={} values={}", what, elt, tr(v));
         let out = match form {
-            "apply_galois_plain" => { let dirty = dirty_plain(b, rng); call!(x, rep, form, class, inp, { let mut d = dirty.clone(); b.ev.apply_galois_plain(p, elt, &mut d); d }) }
+            "apply_galois_plain" => call!(x, rep, form, class, inp, { let mut d = dirty.clone(); b.ev.apply_galois_plain(p, elt, &mut d); d }),
             "apply_galois_plain_new" => call!(x, rep, form, class, inp, b.ev.apply_galois_plain_new(p, elt)),
             _ => call!(x, rep, form, class, inp, { let mut d = p.clone(); b.ev.apply_galois_plain_inplace(&mut d, elt); d }),
         };
@@ -611,6 +613,7 @@ fn rot_case(cfg: &Cfg, grp: &str, case: u64, rep: &mut Report, rng: &mut Rng, co
     let v: Vec<u64> = (1..=n as u64).collect();
     let Some(p) = call!(x, rep, "encode_new", "len=N", tr(&v), b.enc.encode_new(&v)) else { return };
     let mut outs: Vec<Value> = vec![];
+    let dirty = dirty_plain(&b, rng); // a used destination (stale content must not leak)
     let nsteps = if h >= 1 { 2 * (h - 1) } else { 0 }; // = N - 2
     let lo = chunk * CHUNK; let hi = (lo + CHUNK).min(nsteps);
     for k in lo..hi {
@@ -618,7 +621,7 @@ fn rot_case(cfg: &Cfg, grp: &str, case: u64, rep: &mut Report, rng: &mut Rng, co
         let class = if s > 0 { "step>0" } else { "step<0" };
         let Some(elt) = call!(x, rep, "get_elt_from_step", class, format!("step={}", s), tool.get_elt_from_step(s)) else { continue };
         let want = rot_expected(&v, s);
-        check_galois(&x, rep, &b, rng, &p, &v, elt, &want, class, &format!("step {}", s), &ALL, &mut outs);
+        check_galois(&x, rep, &b, &dirty, &p, &v, elt, &want, class, &format!("step {}", s), &ALL, &mut outs);
     }
     if hi > lo {
         rep.count_n("rotation_steps_checked_by_degree(all_0<|s|<N/2,x3_forms)", &format!("N={:05}", n), (hi - lo) as u64);
@@ -633,13 +636,13 @@ fn rot_case(cfg: &Cfg, grp: &str, case: u64, rep: &mut Report, rng: &mut Rng, co
     // ---- column swap: the element of step 0 (what rotate_columns uses) and the literal 2N-1
     let want = swap_expected(&v);
     if let Some(e0) = call!(x, rep, "get_elt_from_step", "step=0", "step=0", tool.get_elt_from_step(0)) {
-        check_galois(&x, rep, &b, rng, &p, &v, e0, &want, "column_swap", "column swap (element of step 0)", &ALL, &mut outs);
+        check_galois(&x, rep, &b, &dirty, &p, &v, e0, &want, "column_swap", "column swap (element of step 0)", &ALL, &mut outs);
         rep.count("column_swap", "get_elt_from_step(0)");
         if e0 != 2 * n - 1 {
-            check_galois(&x, rep, &b, rng, &p, &v, 2 * n - 1, &want, "column_swap", "column swap (element 2N-1)", &ALL, &mut outs);
+            check_galois(&x, rep, &b, &dirty, &p, &v, 2 * n - 1, &want, "column_swap", "column swap (element 2N-1)", &ALL, &mut outs);
             rep.note("get_elt_from_step(0) != 2N-1 observed");
         }
-        rep.count("column_swap", "element_2N-1");
+        if e0 == 2 * n - 1 { rep.count("column_swap", "element_2N-1 (is the element of step 0)"); } else { rep.count("column_swap", "element_2N-1 (separately)"); }
     }
     // ---- random matrices under random steps and the swap
     for _ in 0..4 {
@@ -650,10 +653,10 @@ fn rot_case(cfg: &Cfg, grp: &str, case: u64, rep: &mut Report, rng: &mut Rng, co
             let s = step_of(rng.usize_below(nsteps), h);
             let class = if s > 0 { "step>0" } else { "step<0" };
             if let Some(elt) = call!(x, rep, "get_elt_from_step", class, format!("step={}", s), tool.get_elt_from_step(s)) {
-                check_galois(&x, rep, &b, rng, &rp, &rv, elt, &rot_expected(&rv, s), class, &format!("step {}", s), &ALL, &mut sink);
+                check_galois(&x, rep, &b, &dirty, &rp, &rv, elt, &rot_expected(&rv, s), class, &format!("step {}", s), &ALL, &mut sink);
             }
         }
-        check_galois(&x, rep, &b, rng, &rp, &rv, 2 * n - 1, &swap_expected(&rv), "column_swap", "column swap (element 2N-1)", &ALL[..1], &mut sink);
+        check_galois(&x, rep, &b, &dirty, &rp, &rv, 2 * n - 1, &swap_expected(&rv), "column_swap", "column swap (element 2N-1)", &ALL[..1], &mut sink);
         rep.count("vector_class", "rotation:random_matrix");
     }
     // ---- a valid plaintext with fewer than N coefficients (what encode_polynomial returns) has a decoded
@@ -667,9 +670,9 @@ fn rot_case(cfg: &Cfg, grp: &str, case: u64, rep: &mut Report, rng: &mut Rng, co
                 let mut sink = vec![];
                 rep.count("vector_class", "rotation:plaintext_with_coeff_count<N");
                 if let Some(e1) = call!(x, rep, "get_elt_from_step", "step>0", "step=1", tool.get_elt_from_step(1)) {
-                    check_galois(&x, rep, &b, rng, &ps, &m, e1, &rot_expected(&m, 1), "coeff_count<N", "step 1 on a plaintext with coeff_count < N", &ALL, &mut sink);
+                    check_galois(&x, rep, &b, &dirty, &ps, &m, e1, &rot_expected(&m, 1), "coeff_count<N", &format!("step 1 on the plaintext {:?} (coeff_count {} < N)", c, c.len()), &ALL[..1], &mut sink);
                 }
-                check_galois(&x, rep, &b, rng, &ps, &m, 2 * n - 1, &swap_expected(&m), "coeff_count<N", "column swap (element 2N-1) on a plaintext with coeff_count < N", &ALL[..1], &mut sink);
+                check_galois(&x, rep, &b, &dirty, &ps, &m, 2 * n - 1, &swap_expected(&m), "coeff_count<N", &format!("column swap (element 2N-1) on the plaintext {:?} (coeff_count {} < N)", c, c.len()), &ALL[..1], &mut sink);
             }
         }
     }
@@ -698,7 +701,7 @@ pub fn run(cfg: &Cfg, rep: &mut Report) -> PropMeta {
     rep.note(&format!("{} configurations (N, t bit size, prime choice); every configuration: all N unit vectors, all N monomials, all N-2 rotation steps in three forms, column swap", confs.len()));
     PropMeta {
         id: "C11", level: "exploration",
-        rule: "configurations: N = 2..1024 (quick) / 2..8192 (thorough) x every t bit size 4..60 for which a prime t = 1 mod 2N exists x {smallest, largest (PlainModulus::batching), 2 (quick) / 4 (thorough) seed-dependent random} primes, BFV/BGV, four kinds of coefficient modulus, SecurityLevel::None. Per configuration, exhaustively: the N unit vectors (encode vs. column N^-1 psi^(-e_j k)), the N monomials (decode vs. psi^(e_s k)), every rotation step 0<|s|<N/2 on the index-valued matrix through apply_galois_plain / _new / _inplace, the column swap; sampled: random / extreme / short vectors (round trip, Horner evaluation at all slots for N <= 256, 36 slots above), random polynomials (decode vs. Horner, encode(decode)), reference sums and schoolbook negacyclic products, encode_polynomial / decode_polynomial with coefficients below and above t. evaluations = vectors, polynomials, ring pairs and (step, form) pairs judged; distinct = (check, N, t bit size) classes",
+        rule: "configurations: N = 2..1024 (quick) / 2..8192 (thorough) x every t bit size 4..60 for which a prime t = 1 mod 2N exists x {smallest, largest (PlainModulus::batching), 4 (quick) / 6 (thorough, N <= 1024) / 1 (thorough, N > 1024) seed-dependent random} primes, BFV/BGV, four kinds of coefficient modulus, SecurityLevel::None. Per configuration, exhaustively: the N unit vectors (encode vs. column N^-1 psi^(-e_j k)), the N monomials (decode vs. psi^(e_s k)), every rotation step 0<|s|<N/2 on the index-valued matrix through apply_galois_plain / _new / _inplace, the column swap; sampled: random / extreme / short vectors (round trip, Horner evaluation at all slots for N <= 256, 36 slots above), random polynomials (decode vs. Horner, encode(decode)), reference sums and schoolbook negacyclic products, encode_polynomial / decode_polynomial with coefficients below and above t. evaluations = vectors, polynomials, ring pairs and (step, form) pairs judged; distinct = (check, N, t bit size) classes",
         assumptions: vec![
             "u128 arithmetic of rustc; refm::is_prime (deterministic Miller-Rabin)".into(),
             "psi is taken from context_data.plain_ntt_tables().root() and only checked to be a primitive 2N-th root of unity mod t".into(),
